@@ -351,12 +351,19 @@ impl<D: Device, P: Protocol, S: Socket, TS: TimeSource> GenericCloud<D, P, S, TS
     fn crypto_housekeep(&mut self) -> Result<(), Error> {
         let mut msg = MsgBuffer::new(SPACE_BEFORE);
         let mut del: SmallVec<[SocketAddr; 4]> = smallvec![];
+        // A failed send must not skip the removal of timed out entries below: their handshake state is
+        // already gone, so they would never report an error again and block their address forever.
+        let mut result = Ok(());
         for addr in self.pending_inits.keys().copied().collect::<SmallVec<[SocketAddr; 4]>>() {
             msg.clear();
             match self.pending_inits.get_mut(&addr).unwrap().every_second(&mut msg) {
                 Err(_) => del.push(addr),
                 Ok(MessageResult::None) => (),
-                Ok(MessageResult::Reply) => self.send_to(addr, &mut msg)?,
+                Ok(MessageResult::Reply) => {
+                    if let Err(e) = self.send_to(addr, &mut msg) {
+                        result = Err(e)
+                    }
+                }
                 Ok(_) => unreachable!(),
             }
         }
@@ -365,7 +372,11 @@ impl<D: Device, P: Protocol, S: Socket, TS: TimeSource> GenericCloud<D, P, S, TS
             match self.peers.get_mut(&addr).unwrap().crypto.every_second(&mut msg) {
                 Err(_) => del.push(addr),
                 Ok(MessageResult::None) => (),
-                Ok(MessageResult::Reply) => self.send_to(addr, &mut msg)?,
+                Ok(MessageResult::Reply) => {
+                    if let Err(e) = self.send_to(addr, &mut msg) {
+                        result = Err(e)
+                    }
+                }
                 Ok(_) => unreachable!(),
             }
         }
@@ -374,10 +385,12 @@ impl<D: Device, P: Protocol, S: Socket, TS: TimeSource> GenericCloud<D, P, S, TS
             if self.peers.remove(&addr).is_some() {
                 #[cfg(dswd_vpncloud_verif)]
                 crate::verif::probe(crate::verif::Event::PeerRemoved { addr, reason: "crypto" });
-                self.connect_sock(addr)?;
+                if let Err(e) = self.connect_sock(addr) {
+                    result = Err(e)
+                }
             }
         }
-        Ok(())
+        result
     }
 
     fn reconnect_to_peers(&mut self) -> Result<(), Error> {
